@@ -9,7 +9,8 @@ TASK = "task"
 RULE = ("programs with non-negative rates / adjustments / mixing / infectiousness and no absolute flows; boundary states: every subset of "
         "compartments emptied when the model has <= 4 compartments, sampled subsets above, emptied entries 0 or -2^-10, every mixing "
         "category kept positive; oracle on the real code: comp_rates[c] >= 0 for every emptied c; adaptive trajectories never fall below "
-        "-50*(atol + rtol*N), also at explicit caller-supplied tolerances on fast epidemics and on coarse output grids; distinct by program hash + emptied subset, non-trivial when the emptied compartment has an outflow")
+        "-50*(atol + rtol*N), and never below -10*(atol + rtol*N) at explicit caller-supplied tolerances on fast epidemics and on coarse output grids "
+        "(hundreds of time units between outputs); distinct by program hash + emptied subset, non-trivial when the emptied compartment has an outflow")
 TRUSTED = []
 ASSUMPTIONS = ["explicit Euler with h*w > 1 overshoots by construction and is not counted as a violation (DESIGN C18)"]
 
@@ -33,8 +34,9 @@ def adaptive_task(W, payload):
         tols = [r.choice(["1/1000000000", "1/100000000"]), "1/1000000"]
         bump(out, "adaptive:fast_epidemic")
     else:
-        a = r.choice(["1/100", "1/50", "1/20"]); b = r.choice(["1/200", "1/100", "1/40"])
-        ops = [{"op": "model", "t0": "0", "t1": r.choice(["3000", "2000"]), "dt": r.choice(["1000", "500"]), "comps": ["S", "I", "R"], "inf": ["I"]},
+        a = r.choice(["1/100", "1/150", "1/200"]); b = r.choice(["1/200", "1/300", "1/400"])
+        t1, dt = r.choice([("3000", "1000"), ("4000", "2000"), ("2000", "1000")])
+        ops = [{"op": "model", "t0": "0", "t1": t1, "dt": dt, "comps": ["S", "I", "R"], "inf": ["I"]},
                {"op": "init_pop", "dist": [["S", {"c": "900"}], ["I", {"c": "100"}]]},
                {"op": "flow", "kind": "transition", "name": "a", "param": {"c": a}, "src": "S", "dst": "I"},
                {"op": "flow", "kind": "transition", "name": "b", "param": {"c": b}, "src": "I", "dst": "R"}]
@@ -54,7 +56,7 @@ def adaptive_task(W, payload):
         o = np.array(rr["outputs"])
         tl = 1.4e-4 if tol is None else float(Fr(tol))
         N = float(np.abs(o[0]).sum())
-        lim = -50 * (tl + tl * max(N, 1.0))
+        lim = -10 * (tl + tl * max(N, 1.0))
         out["cases"].append(prog_hash(ops) + ":adaptive:" + str(tol))
         if not np.all(np.isfinite(o)) or o.min() < lim:
             fail(out, "adaptive trajectory falls below zero by more than the requested solver tolerance", "c18", payload, minimum=float(np.nanmin(o)), limit=lim,
